@@ -127,44 +127,100 @@ func randScript(r *vx.Rand, maxLen int) []string {
 	return s
 }
 
+// leaderRetry: answers after which the sender tries the same (leader) replica again, so that its attempts get exhausted
+var leaderRetry = []string{"stale", "maxts", "busy", "unk", "dlmsg", "diskfull", "rpcerr", "epochold"}
+var hintFaults = []string{"nl1", "nl2", "nl3", "nlnext"}
+
+// deepScript exhausts a replica and then lets the stores send leader hints (the onUpdateLeader refill path)
+func deepScript(r *vx.Rand) []string {
+	var s []string
+	x := leaderRetry[r.Intn(len(leaderRetry))]
+	for i, k := 0, 8+r.Intn(5); i < k; i++ {
+		s = append(s, x)
+	}
+	for i, k := 0, 1+r.Intn(6); i < k; i++ {
+		switch {
+		case r.Chance(60):
+			s = append(s, hintFaults[r.Intn(len(hintFaults))])
+		case r.Chance(50):
+			s = append(s, x)
+		default:
+			s = append(s, faults[1+r.Intn(len(faults)-1)])
+		}
+	}
+	// forever answer: mostly not a hint, so that the refills of the finite part are what is exercised
+	if r.Chance(85) {
+		s = append(s, []string{"stale", "ok", "epoch", "rpcerr", "busy", "nl", "unk", "maxts"}[r.Intn(8)])
+	} else {
+		s = append(s, hintFaults[r.Intn(len(hintFaults))])
+	}
+	return s
+}
+
 func generate(run *vx.Run, exec func(string)) {
 	g := &gen{run: run, exec: exec}
-	r := vx.NewRand(run.Seed)
-	exLen, coreLen, nRand := 2, 3, 2500
+	// vx.NewRand(k) and vx.NewRand(k+1) are the same splitmix stream shifted by one draw; Fork() re-keys the generator with a
+	// scrambled output so that neighbouring seeds give unrelated case lists
+	r := vx.NewRand(run.Seed).Fork()
+	// exhaustive lengths: reduced alphabet x all (mode, cmd); core alphabet x all; core alphabet x rotating (mode, cmd)
+	redLen, coreAll, coreRot, rot, nRand, nDeep := 2, 3, 4, 2, 2500, 600
 	if run.Thorough() {
-		exLen, coreLen, nRand = 3, 5, 40000
+		redLen, coreAll, coreRot, rot, nRand, nDeep = 3, 4, 5, 1, 30000, 6000
 	}
 	if v := os.Getenv("C10_NRAND"); v != "" {
 		nRand, _ = strconv.Atoi(v)
 	}
-	if v := os.Getenv("C10_EXLEN"); v != "" {
-		exLen, _ = strconv.Atoi(v)
-		coreLen = exLen
+	type combo struct{ mode, cmd string }
+	var combos []combo
+	for _, mode := range allModes {
+		for _, cmd := range []string{"get", "prewrite"} {
+			combos = append(combos, combo{mode, cmd})
+		}
 	}
-	// 1. exhaustive scripts over the reduced alphabet for every read mode, a read and a write command
-	for L := 0; L <= coreLen; L++ {
+	one := func(s []string, cb combo) {
+		c := defaultCfg()
+		c.cmd, c.mode = cb.cmd, cb.mode
+		c.learner = cb.mode == "learner"
+		c.wflag = 1
+		c.seed = uint64(g.n % 7)
+		c.budget = budgets[(g.n/3)%len(budgets)]
+		c.short = (g.n/5)%2 == 1
+		g.emit(c, s)
+	}
+	// 1. exhaustive scripts (the last element is the forever answer)
+	k := 0
+	for L := 0; L <= coreRot; L++ {
 		alpha := reduced
-		if L > exLen {
+		if L > redLen {
 			alpha = core
 		}
 		enumScripts(alpha, L, func(s []string) {
-			for _, mode := range allModes {
-				for _, cmd := range []string{"get", "prewrite"} {
-					c := defaultCfg()
-					c.cmd, c.mode = cmd, mode
-					c.learner = mode == "learner"
-					c.wflag = 1
-					c.seed = uint64(g.n % 7)
-					c.budget = budgets[(g.n/3)%len(budgets)]
-					c.short = (g.n/5)%2 == 1
-					g.emit(c, s)
+			if L <= coreAll {
+				for _, cb := range combos {
+					one(s, cb)
 				}
+				return
+			}
+			for i := 0; i < rot; i++ {
+				one(s, combos[k%len(combos)])
+				k += 5 // 5 is coprime to 12: every (mode, cmd) comes round
 			}
 		})
 	}
 	// 2. random scripts up to length 30 over the full alphabet with random configurations
 	for i := 0; i < nRand; i++ {
+		g.emit(randCfg(r), randScript(r, 30))
+	}
+	// 3. replica exhaustion followed by leader hints
+	for i := 0; i < nDeep; i++ {
 		c := randCfg(r)
-		g.emit(c, randScript(r, 30))
+		if r.Chance(70) {
+			c.live, c.ts, c.fwd = "rrr", "valid", false
+			c.budget = 40000
+			if r.Chance(70) {
+				c.mode = "leader" // the leader strategy is the one that spends maxReplicaAttempt attempts on one replica
+			}
+		}
+		g.emit(c, deepScript(r))
 	}
 }
